@@ -1,6 +1,7 @@
 package props
 
 import (
+	"bytes"
 	"fmt"
 	"strings"
 
@@ -423,6 +424,47 @@ func runC11(c *core.Ctx) {
 			cs.Check(cerr == nil && cn == cname, "cname", det)
 		}
 		cs.Check(cp.MarshalSize() == cp[0].MarshalSize()+s.MarshalSize(), "marshal-size", det)
+	})
+	// members whose encoding is as large as the 16-bit length field allows (and just below, and
+	// around 64 KiB): Validate succeeds and every member marshals, so Marshal must succeed and its
+	// result must be the members' encodings one after the other (after seed C11n)
+	bigSizes := []int{65532, 65536, 65540, 131072, 262136, 262140, 262144}
+	c.Section("big-members", uint64(len(bigSizes))*c.N(2, 8), func(cs *core.Case) {
+		r := cs.R
+		size := bigSizes[cs.Idx%uint64(len(bigSizes))]
+		var cp rtcp.CompoundPacket
+		where := int(cs.Idx / uint64(len(bigSizes)) % 2)
+		bigRR := &rtcp.ReceiverReport{SSRC: r.U32(), ProfileExtensions: r.Bytes(size - 8)}
+		sdes := &rtcp.SourceDescription{Chunks: []rtcp.SourceDescriptionChunk{{Source: r.U32(), Items: []rtcp.SourceDescriptionItem{{Type: rtcp.SDESCNAME, Text: "big-" + gen.TextN(r, 6)}}}}}
+		if where == 0 {
+			cp = rtcp.CompoundPacket{bigRR, sdes} // the leading report is the big one
+		} else {
+			cp = rtcp.CompoundPacket{&rtcp.SenderReport{SSRC: r.U32()}, bigRR, sdes, &rtcp.Goodbye{Sources: []uint32{r.U32()}}}
+		}
+		cs.DistinctN(1)
+		cs.Count(fmt.Sprintf("big-members/%d", size))
+		var want []byte
+		for _, m := range cp {
+			mb, merr, mpan := gMarshal(m)
+			if mpan != "" || merr != nil {
+				cs.Fail("big-members/member-refused", core.W{"member_size": size, "error": errStr(merr), "panic": mpan})
+				return
+			}
+			want = append(want, mb...)
+		}
+		verr := cp.Validate()
+		b, err, pan := gMarshal(&cp)
+		cs.Eval(2)
+		if pan != "" {
+			cs.Fail("panic/Marshal", core.W{"member_size": size, "panic": pan})
+			return
+		}
+		det := func() core.W {
+			return core.W{"member_size": size, "big_member_at": where, "validate_error": errStr(verr), "marshal_error": errStr(err), "len": len(b), "expected_len": len(want)}
+		}
+		cs.Check(verr == nil, "validate", det)
+		cs.Check(err == nil && bytes.Equal(b, want), "marshal", det)
+		cs.Check(cp.MarshalSize() == len(want), "marshal-size", det)
 	})
 	// SDES members with more chunks than the 5-bit count can announce (hand-built; they cannot be
 	// marshalled): what Validate and CNAME say depends on where a CNAME item is, never on the
